@@ -9,8 +9,11 @@ import (
 	"fmt"
 	"math/rand"
 	"os"
+	"runtime"
+	"strings"
 	"sync"
 	"sync/atomic"
+	"time"
 
 	"github.com/alibaba/sentinel-golang/core/base"
 	sbase "github.com/alibaba/sentinel-golang/core/stat/base"
@@ -221,6 +224,18 @@ func execute(s *scen, ch coop.Chooser) (*coop.Result, string, string) {
 		return res, "panic", fmt.Sprintf("worker %d panicked: %s", w, p)
 	}
 	// ---- oracle
+	// The final reads below refresh the current bucket themselves. If a lock was leaked during the
+	// run they would spin forever: perform one such read under the scheduler first, so that
+	// non-termination is decided in steps.
+	probe := coop.Run(coop.NonPreemptive{}, coop.Options{Adversarial: 1, FairTail: 5000}, func() {
+		_ = arr.CountWithTime(clk.Ms(), base.MetricEventPass)
+	})
+	if probe.Stuck {
+		return res, "", "stuck"
+	}
+	if len(probe.NonTerminated) > 0 {
+		return res, "termination:reader-after-quiescence", "after all workers had finished, a lone reader (CountWithTime) did not terminate within 5000 steps: the rollover path is blocked (leaked update lock?)"
+	}
 	now := clk.Ms()
 	cur := now - now%L
 	winLo := cur + L - cycle
@@ -314,6 +329,18 @@ func execute(s *scen, ch coop.Chooser) (*coop.Result, string, string) {
 			run.Count("schedules_with_permitted_loss", 1)
 		}
 	}
+	// last: a rollover into a later bucket must still be possible (done after the comparisons above
+	// because it recycles a slot); again under the scheduler, so that a leaked lock shows as
+	// non-termination in steps instead of hanging the monitor
+	probe = coop.Run(coop.NonPreemptive{}, coop.Options{Adversarial: 1, FairTail: 5000}, func() {
+		_ = arr.Values(clk.Ms() + uint64(s.L)*uint64(s.N))
+	})
+	if probe.Stuck {
+		return res, "", "stuck"
+	}
+	if len(probe.NonTerminated) > 0 {
+		return res, "termination:rollover-after-quiescence", "after all workers had finished, a lone reader needing a rollover (Values at a later bucket) did not terminate within 5000 steps: the update lock was never released"
+	}
 	return res, "", ""
 }
 
@@ -366,7 +393,21 @@ func stress() {
 				}
 			}()
 		}
-		wg.Wait()
+		doneCh := make(chan struct{})
+		go func() { wg.Wait(); close(doneCh) }()
+		select {
+		case <-doneCh:
+		case <-time.After(90 * time.Second):
+			// the phase normally takes milliseconds
+			buf := make([]byte, 1<<22)
+			buf = buf[:runtime.Stack(buf, true)]
+			if n := strings.Count(string(buf), "currentBucketOfTime"); n > 0 {
+				run.Violation("C09/stress:non-termination", fmt.Sprintf("phase %d (%dx%dms): %d goroutines are still inside currentBucketOfTime 90 s after the phase started (it takes milliseconds): recorders / readers do not terminate", r, N, L, n), map[string]interface{}{"phase": r, "n": N, "l": L})
+			} else {
+				run.Inconclusive("stress phase did not finish within 90 s but no goroutine is inside currentBucketOfTime")
+			}
+			return
+		}
 		got := arr.Count(base.MetricEventPass)
 		fam := "cold"
 		if warm {
